@@ -144,6 +144,19 @@ def b5(e: Engine, rep: Report):
                 isinstance(x.body[0].value.args[0], ast.Name) and
                 x.body[0].value.args[0].id == x.target.id
                 for x in walk_own(rfn))
+            # ... or handed whole to writelines()
+            wl = any(
+                isinstance(x, ast.Call) and
+                isinstance(x.func, ast.Attribute) and
+                x.func.attr == 'writelines' and len(x.args) == 1 and (
+                    x.args[0] is call or (
+                        isinstance(x.args[0], ast.Name) and any(
+                            isinstance(a, ast.Assign) and a.value is call and
+                            any(isinstance(t, ast.Name) and
+                                t.id == x.args[0].id for t in a.targets)
+                            for a in walk_own(rfn))))
+                for x in walk_own(rfn))
+            written = written or wl
             if not joined and not written:
                 rep.error('cannot see how _build_message consumes the parts '
                           'generated by %s' % where)
